@@ -35,6 +35,10 @@ GMigrate(t) ==
   \* one attempt per call; t = m stands for "no attempt"
   /\ hook' = IF t = m THEN hook ELSE Append(hook, [op |-> "migrate", to |-> t])
   /\ UNCHANGED hist
+GBlock(t) ==
+  /\ BlockSeccomp(t)
+  /\ hist' = Append(hist, [op |-> "block", t |-> t, state |-> Snap'])
+  /\ UNCHANGED <<hook, callerT>>
 GLib ==
   /\ LibNext
   /\ IF pc = "ret"
@@ -47,6 +51,7 @@ GLib ==
   /\ callerT' = IF pc = "idle" THEN m' ELSE callerT
 GNext ==
   \/ GLib
+  \/ \E t \in threads \cap Callers : GBlock(t)
   \/ \E p \in threads, n \in Threads : GSpawn(p, n)
   \/ \E t \in threads : GMigrate(t)
 GSpec == GInit /\ [][GNext]_gvars
